@@ -1,5 +1,5 @@
-(* Nested specification documents, DFSTraversePatch._apply with ArithmeticPatch as coded NOW
-   (simaple/spec/patch.py), the property's reading of it, and Spec.interpret.  DEFINITIONS ONLY.
+(* Nested specification documents, DFSTraversePatch._apply as coded NOW (simaple/spec/patch.py, with the
+   patch_key hook of commit e5276b7), the property's reading of it, and Spec.interpret.  DEFINITIONS ONLY.
 
    Python                                         model
    ------                                         -----
@@ -13,14 +13,16 @@
    def _apply(self, raw, origin):
        if isinstance(raw, list):  return [self._apply(arg, origin) for arg in raw]
        if isinstance(raw, (int, float, str)):
-           patch = self.patch_value(raw, origin);  return raw if patch is None else patch      # = evaluate(raw)
+           patch = self.patch_value(raw, origin);  return raw if patch is None else patch      # = ev raw
        interpreted = {}
        excluded_keys = raw.get("exclude", []) + ["exclude"]
        for k, v in raw.items():
            if k in excluded_keys:  continue
-           if isinstance(v, (dict, list)):  interpreted[k] = self._apply(v, origin)             # key NOT evaluated
-           else:  interpreted.update({self.evaluate(k): self.evaluate(v)})                      # patch_dict
+           if isinstance(v, (dict, list)):  interpreted[self.patch_key(k, origin)] = self._apply(v, origin)   # hook evk
+           else:  interpreted.update(self.patch_dict(k, v, origin))                            # {ev k: ev v}
        return interpreted
+   The model is generic in the two hooks: `ev` (patch_value, and both components of patch_dict) and `evk` (patch_key:
+   the identity for every DFSTraversePatch except ArithmeticPatch, which evaluates the key).
    YAML null is outside the model (a null list element makes _apply raise AttributeError). *)
 From Coq Require Import QArith List Bool ZArith NArith String.
 From V.Model Require Import Expr ExprParse.
@@ -29,7 +31,8 @@ Import ListNotations.
 Section Doc.
   Variable Leaf : Type.
   Variable leaf_eqb : Leaf -> Leaf -> bool.        (* Python == on hashable scalars *)
-  Variable ev : Leaf -> option Leaf.               (* ArithmeticPatch.evaluate *)
+  Variable ev : Leaf -> option Leaf.               (* patch_value / the two halves of patch_dict *)
+  Variable evk : Leaf -> option Leaf.              (* patch_key: key of an entry whose value is a dict or a list *)
   Variable exclude_key : Leaf.                     (* the string "exclude" *)
 
   Inductive doc := DLeaf (l : Leaf) | DList (ds : list doc) | DDict (kvs : list (Leaf * doc)).
@@ -80,28 +83,31 @@ Section Doc.
                                       | Some k', Some x' => go r (set acc k' (DLeaf x'))
                                       | _, _ => None
                                       end
-                         | _ => match apply v with Some v' => go r (set acc k v') | None => None end
+                         | _ => match evk k, apply v with
+                                | Some k', Some v' => go r (set acc k' v')
+                                | _, _ => None
+                                end
                          end
                      end) kvs [] with
             | Some acc => Some (DDict acc) | None => None end
         end
     end.
 
-  (* ---- specifications.  Both are "map over the entries that are not excluded, then build the dict"; they
-     differ only in the key of an entry whose value is a container. *)
+  (* ---- specifications: "map over the entries that are not excluded, then build the dict".
+     keyc = what happens to the key of a dict-/list-valued entry; mk = how the result dict is built from the mapped
+     entries: dict_of (Python dict semantics: a later equal key overwrites the value of the earlier one, which keeps
+     its place) or the identity (plain map). *)
   Definition dict_of (l : list (Leaf * doc)) : list (Leaf * doc) :=
     fold_left (fun acc kv => set acc (fst kv) (snd kv)) l [].
 
-  (* keys_everywhere = true: the property's reading (every key is interpreted);
-     keys_everywhere = false: what the code does (a key in front of a dict / list is left alone) *)
-  Fixpoint reading (keys_everywhere : bool) (d : doc) : option doc :=
+  Fixpoint reading (keyc : Leaf -> option Leaf) (mk : list (Leaf * doc) -> list (Leaf * doc)) (d : doc) : option doc :=
     match d with
     | DLeaf l => match ev l with Some l' => Some (DLeaf l') | None => None end
     | DList ds =>
         match (fix go (l : list doc) : option (list doc) :=
                  match l with
                  | [] => Some []
-                 | x :: r => match reading keys_everywhere x with
+                 | x :: r => match reading keyc mk x with
                              | Some x' => match go r with Some r' => Some (x' :: r') | None => None end
                              | None => None
                              end
@@ -116,34 +122,30 @@ Section Doc.
                      | [] => Some []
                      | (k, v) :: r =>
                          if mem k ex then go r else
-                         match (if keys_everywhere || negb (is_container v) then ev k else Some k), reading keys_everywhere v with
+                         match (if is_container v then keyc k else ev k), reading keyc mk v with
                          | Some k', Some v' => match go r with Some r' => Some ((k', v') :: r') | None => None end
                          | _, _ => None
                          end
                      end) kvs with
-            | Some es => Some (DDict (dict_of es)) | None => None end
+            | Some es => Some (DDict (mk es)) | None => None end
         end
     end.
-  Definition ideal := reading true.
-  Definition as_coded := reading false.
+  (* the property's statement: EVERY key, value and list element is interpreted (keyc = ev) *)
+  Definition ideal := reading ev dict_of.
+  (* the same as a plain map, no dict building: what "replaced" means when no two interpreted keys coincide *)
+  Definition plain := reading ev (fun es => es).
+  (* what _apply computes for an arbitrary patch_key hook *)
+  Definition hooked := reading evk dict_of.
 
-  (* no key in front of a dict / list (that survives "exclude") is changed by interpretation, at any depth *)
-  Fixpoint keys_ok (d : doc) : Prop :=
-    match d with
-    | DLeaf _ => True
-    | DList ds => (fix all (l : list doc) : Prop := match l with [] => True | x :: r => keys_ok x /\ all r end) ds
-    | DDict kvs =>
-        forall ex, excluded kvs = Some ex ->
-        (fix all (l : list (Leaf * doc)) : Prop :=
-           match l with
-           | [] => True
-           | (k, v) :: r => (mem k ex = false -> keys_ok v /\ (is_container v = true -> ev k = Some k)) /\ all r
-           end) kvs
-    end.
-
-  (* pairwise different keys (by Python equality): then building the dict changes nothing *)
+  (* pairwise different keys (by Python equality) in one dict / in every dict of a document *)
   Fixpoint distinct_keys (l : list (Leaf * doc)) : bool :=
     match l with [] => true | (k, _) :: r => negb (existsb (fun kv => leaf_eqb k (fst kv)) r) && distinct_keys r end.
+  Fixpoint distinct_all (d : doc) : bool :=
+    match d with
+    | DLeaf _ => true
+    | DList ds => forallb distinct_all ds
+    | DDict kvs => distinct_keys kvs && forallb (fun kv => distinct_all (snd kv)) kvs
+    end.
 
   (* ---- Spec.interpret:  data = self.data.copy();  for patch in patches: data = patch.apply(data);  return data
      The stored document is a value of an immutable type here, so "copy" is the identity and the store cannot be
@@ -179,6 +181,7 @@ Definition ev (r : env) (l : leaf) : option leaf :=
   end.
 
 Definition sdoc := doc leaf.
-Definition arith_apply (r : env) : sdoc -> option sdoc := apply leaf leaf_eqb (ev r) exclude_key.
+(* ArithmeticPatch: patch_value = patch_key = evaluate, patch_dict = {evaluate k: evaluate v} *)
+Definition arith_apply (r : env) : sdoc -> option sdoc := apply leaf leaf_eqb (ev r) (ev r) exclude_key.
 Definition arith_ideal (r : env) : sdoc -> option sdoc := ideal leaf leaf_eqb (ev r) exclude_key.
-Definition arith_as_coded (r : env) : sdoc -> option sdoc := as_coded leaf leaf_eqb (ev r) exclude_key.
+Definition arith_plain (r : env) : sdoc -> option sdoc := plain leaf leaf_eqb (ev r) exclude_key.
